@@ -194,6 +194,10 @@ def run(rep, ctx):
     with rep.guard("R07.6"):
         from . import c05 as _c05
         _c05.r05_3(rep, ctx.model, "R07.6")
+    rep.rule("R07.7", "re-wrapping of the normalised positions snaps coordinates only within numerical noise (an atom moved onto a cell face leaves its orbit; shared with C05)")
+    with rep.guard("R07.7"):
+        from . import c05 as _c05b
+        _c05b.r05_6(rep, M, "R07.7")
     rep.floor("R07.1", 6000)
     rep.floor("R07.2", 4)
     rep.floor("R07.3", 7)
